@@ -53,7 +53,9 @@ def multiline_condition(text):
     return lines
 
 
-LAYOUTS = ["one-line", "args-on-lines", "keyword-form", "keyword-form-lines", "condition-multiline", "comments", "trailing-comma-desc-kw"]
+LAYOUTS = ["one-line", "args-on-lines", "keyword-form", "keyword-form-lines", "condition-multiline", "comments", "trailing-comma-desc-kw",
+           "no-description", "no-description-kw"]
+NO_DESCRIPTION = ("no-description", "no-description-kw")
 
 
 def make_layout(kind):
@@ -84,6 +86,10 @@ def make_layout(kind):
                     "    %r%s" % (desc, extra),
                     "    # last comment",
                     ")"]
+        if kind == "no-description":
+            return ["@icontract.%s(%s%s)" % (deco, lam, extra)]
+        if kind == "no-description-kw":
+            return ["@icontract.%s(" % deco, "    condition=%s%s," % (lam, extra), ")"]
         if kind == "trailing-comma-desc-kw":
             return ["@icontract.%s(%s," % (deco, lam), "    description=%r%s,)" % (desc, extra)]
         raise ValueError(kind)
